@@ -109,6 +109,11 @@ def build(tape, prop, tier):
     ntot = npairs + (1 if s["inv"] else 0)
     all_syms = [QUOTE] + bases + (["ZZZ"] if s["inv"] else [])
     s["prec"] = prec
+    # one pair may get its own, coarser, PairInfo (set_pair_info takes precedence over the symbols' precisions)
+    s["pair_info"] = {}
+    if tape.chance(0.2):
+        pi_ = tape.draw(npairs)
+        s["pair_info"][str(pi_)] = [tape.draw(prec[bases[pi_]] + 1), tape.draw(prec[QUOTE] + 1)]
     fee_kind = tape.choice(["none", "pct", "pctmin"]) if prop != "C09" else tape.choice(["pct", "pctmin", "none", "pctmin"])
     pct = tape.choice([D("0.25"), D("0.1"), D(1), D("0.333"), D(5), D("0.075"), D("12.5"), D(0), D("99.999")])
     if tape.chance(0.3):
